@@ -46,7 +46,8 @@
 (*     one byte units).  kind "nc": noncontextual, one per lookup format.  *)
 (*   kind "multi": several chains / feature flags / coverage bits.         *)
 (*   kind "adv": a named table that is well formed but adversarial for     *)
-(*     totality (DONT_ADVANCE cycles, indices at the table end, ...).      *)
+(*     totality (DONT_ADVANCE cycles, indices at the table end, ...) or    *)
+(*     whose headers lie about the counts and lengths that follow.         *)
 (*   The text strings over the font's classes come from MC_Shaper (mode    *)
 (*   "txt"): ligature at the start / middle / end of the run and           *)
 (*   components left on the stack at the end of text are strings such as   *)
@@ -75,7 +76,8 @@ AdvNames == {"ctx-da-self", "ctx-da-cycle2", "ctx-da-pingpong", "ctx-da-start-st
              "lig-push-forever", "lig-store-twice-stale", "entry-past", "state-past", "class-past",
              "ctx-mark-past", "ctx-cur-past", "ctx-deleted", "ctx-missing-gid", "lig-missing-gid",
              "nc-format10-unit4", "nc-format10-unit8", "cls-format10-unit4", "nc-deleted", "no-chains",
-             "empty-chain"}
+             "empty-chain", "hdr-nchains-huge", "hdr-nsubtables-huge", "hdr-nfeatures-huge",
+             "hdr-chainlength-huge", "hdr-subtable-length-huge", "hdr-subtable-length-short"}
 
 VARIABLES c,        \* the font case
           at,       \* lkp: 1-based index of the lookup about to be applied (Len + 1 = the terminal lookup)
